@@ -210,6 +210,80 @@ theorem generated_cca_idempotent (x r : Arr α) (legal : List LegalShape) (hs : 
     cases r; cases r'; simp_all
   rw [hr', this]
 
+/-! ### the trusted primitive `transpose` against its specification -/
+
+theorem filterMap_range_all_some {β : Type} (f : Nat → Option β) (n : Nat) (h : ∀ k < n, (f k).isSome = true) :
+    ((List.range n).filterMap f).length = n ∧ ∀ k < n, ((List.range n).filterMap f)[k]? = f k := by
+  induction n with
+  | zero => simp
+  | succ n ih =>
+    obtain ⟨hl, hg⟩ := ih (fun k hk => h k (Nat.lt_succ_of_lt hk))
+    obtain ⟨v, hv⟩ := Option.isSome_iff_exists.mp (h n (Nat.lt_succ_self n))
+    rw [List.range_succ, List.filterMap_append]
+    simp only [List.filterMap_cons, hv, List.filterMap_nil, List.length_append, hl, List.length_singleton,
+      true_and]
+    intro k hk
+    by_cases hkn : k < n
+    · rw [List.getElem?_append_left (by rw [hl]; exact hkn)]; exact hg k hkn
+    · have : k = n := by omega
+      subst this
+      rw [List.getElem?_append_right (by rw [hl]; exact Nat.le_refl _)]
+      simp [hl, hv]
+
+/-- **`PyCCA.transpose` on a 2-D array is the matrix transposition**: the result has shape
+`(c, r)`, as many elements, and its element `(j, i)` is element `(i, j)` of the argument
+(row-major positions `j * r + i` and `i * c + j`).  This ties the trusted primitive to its
+specification for the arrays `forced_response(…, transpose=True)` passes. -/
+theorem transpose_2d (a : Arr α) (r c : Nat) (hsh : a.shape = [r, c]) (hlen : a.data.length = r * c) :
+    (transpose a).shape = [c, r] ∧ (transpose a).data.length = r * c ∧
+      ∀ i j, i < r → j < c → (transpose a).data[j * r + i]? = a.data[i * c + j]? := by
+  have hr0 : ∀ k, k < c * r → 0 < r := fun k hk => Nat.pos_of_ne_zero (by rintro rfl; simp at hk)
+  have hf : ∀ k, k < c * r →
+      a.data[ravel a.shape (unravel a.shape.reverse k).reverse]? = a.data[(k % r) * c + k / r]? := by
+    intro k _
+    simp [hsh, unravel, ravel]
+  have hsome : ∀ k < c * r,
+      (a.data[ravel a.shape (unravel a.shape.reverse k).reverse]?).isSome = true := by
+    intro k hk
+    rw [hf k hk, List.getElem?_eq_some_iff.mpr ⟨?_, rfl⟩]; rfl
+    rw [hlen]
+    have h1 : k % r < r := Nat.mod_lt _ (hr0 k hk)
+    have h2 : k / r < c := Nat.div_lt_of_lt_mul (by rw [Nat.mul_comm]; exact hk)
+    calc k % r * c + k / r < k % r * c + c := by omega
+      _ = (k % r + 1) * c := (Nat.succ_mul _ _).symm
+      _ ≤ r * c := Nat.mul_le_mul_right c h1
+  have hprod : a.shape.reverse.prod = c * r := by simp [hsh]
+  obtain ⟨hl, hg⟩ := filterMap_range_all_some
+    (fun k => a.data[ravel a.shape (unravel a.shape.reverse k).reverse]?) (c * r) hsome
+  refine ⟨by simp [transpose, hsh], ?_, ?_⟩
+  · show ((List.range a.shape.reverse.prod).filterMap _).length = r * c
+    rw [hprod, hl, Nat.mul_comm]
+  · intro i j hi hj
+    have hk : j * r + i < c * r := by
+      calc j * r + i < j * r + r := by omega
+        _ = (j + 1) * r := (Nat.succ_mul _ _).symm
+        _ ≤ c * r := Nat.mul_le_mul_right r hj
+    show ((List.range a.shape.reverse.prod).filterMap _)[j * r + i]? = _
+    rw [hprod, hg _ hk, hf _ hk]
+    have h1 : (j * r + i) % r = i := by
+      rw [Nat.add_comm, Nat.add_mul_mod_self_right, Nat.mod_eq_of_lt hi]
+    have h2 : (j * r + i) / r = j := by
+      rw [Nat.add_comm, Nat.add_mul_div_right _ _ (by omega : 0 < r), Nat.div_eq_of_lt hi, Nat.zero_add]
+    rw [h1, h2]
+
+/-- **`transpose=True` end to end** for a 2-D argument: the accepted result has the transposed
+shape and its element `(j, i)` is the caller's element `(i, j)`. -/
+theorem generated_cca_transposed_data (x res : Arr α) (legal : List LegalShape) (r c : Nat)
+    (hsh : x.shape = [r, c]) (hlen : x.data.length = r * c)
+    (h : Generated.CCA.checkConvertArray x legal false true = .ok res) :
+    res.shape = [c, r] ∧ ∀ i j, i < r → j < c → res.data[j * r + i]? = x.data[i * c + j]? := by
+  obtain ⟨h1, -, h3⟩ := transpose_2d x r c hsh hlen
+  rw [generated_cca_transpose] at h
+  obtain ⟨hd, -, hs, -⟩ := generated_cca_data (transpose x) res legal false (by rw [h1]; simp) h
+  exact ⟨by rw [hs rfl, h1], fun i j hi hj => by rw [hd]; exact h3 i j hi hj⟩
+
+example : (transpose (⟨[2, 3], [1, 2, 3, 4, 5, 6], Kind.i⟩ : Arr Nat)).data = [1, 4, 2, 5, 3, 6] := by rfl
+
 /-- non-vacuity: `forced_response`'s `X0` check on a concrete vector and a concrete scalar. -/
 example : checkConvertArray (α := Nat) ⟨[3, 1], [7, 8, 9], Kind.i⟩ [[.n 3], [.n 3, .n 1]] true false
     = .ok ⟨[3], [7, 8, 9], Kind.i⟩ := by rfl
